@@ -64,6 +64,9 @@ type StreamOpts struct {
 	Reserved    bool // include commands on reserved keys / bookkeeping traffic
 	Filters     *FilterSpec
 	NumDBs      int
+	NoUnknown   bool          // only commands of the generator's key table (keys always determinable)
+	OnlyDB0     bool          // SELECT only ever selects database 0 (bidirectional replay)
+	KeyGen      func() []byte // optional key source (cluster harnesses control slots)
 }
 
 // FilterSpec is the harness' own description of the configured filters (also rendered into the tool's config).
@@ -188,6 +191,9 @@ func (g *gen) filterKey() []byte {
 }
 
 func (g *gen) key() []byte {
+	if g.opts.KeyGen != nil {
+		return g.opts.KeyGen()
+	}
 	if g.opts.Filters != nil && g.c.Choose("fkey", 4) > 0 {
 		return g.filterKey()
 	}
@@ -239,7 +245,7 @@ func randCase(c *simrt.Chooser, s string) string {
 }
 
 func (g *gen) businessCmd() (string, [][]byte) {
-	if g.c.Choose("unknowncmd", 6) == 0 {
+	if !g.opts.NoUnknown && g.c.Choose("unknowncmd", 6) == 0 {
 		name := unknownCmds[g.c.Choose("ucmd", len(unknownCmds))]
 		n := g.c.Choose("uargs", 4)
 		var args [][]byte
@@ -390,6 +396,9 @@ func GenStream(c *simrt.Chooser, o StreamOpts) *Stream {
 		db := c.Choose("db", o.NumDBs)
 		if c.Choose("dbsmall", 2) == 0 {
 			db = c.Choose("db3", 3)
+		}
+		if o.OnlyDB0 {
+			db = 0
 		}
 		curDB = db
 		add(KSelect, 0, randCase(c, "select"), []byte(strconv.Itoa(db)))
